@@ -39,7 +39,8 @@ Leap(y)  == (y % 4 = 0 /\ y % 100 # 0) \/ y % 400 = 0
 Trunc(tf, d) == [d EXCEPT !.s = IF tf \in {"tt:mm", "h:mm aa"} THEN 0 ELSE d.s, !.us = 0]
 
 \* ---- JSON documents ----------------------------------------------------------------------------
-Scalars == {"null", "true", "false", "0", "-1.50", "1e2", "12345678901234567890123", "\"\"", "\"a\\u00e9\\n\"", "\"\\ud83d\\ude00\""}
+Scalars == {"null", "true", "false", "0", "-1.50", "1e2", "12345678901234567890123", "\"\"", "\"a\\u00e9\\n\"", "\"\\ud83d\\ude00\"",
+            "\"\\u0007\\u001b\"", "\"\\u0000x\"", "\"\\u007f\\udb40\\udc01\""}   \* control characters, DEL, a non-printable character outside the BMP
 Keys == {"a", "A", "b"}
 
 VARIABLES kind, num, dt, fmt, js
